@@ -753,10 +753,14 @@ func (rn *runner) referenceHTTP(in input) []section {
 
 // concurrentLib runs `process` on every input from g goroutines (input j belongs to
 // goroutine j mod g), reps times each, and compares with the sequential reference.
-func (rn *runner) concurrentLib(ins []input, g, reps int) bool {
+// cold: the goroutines go first and the sequential reference is computed afterwards, so
+// that whatever the library initialises on first use is first used concurrently.
+func (rn *runner) concurrentLib(ins []input, g, reps int, cold bool) bool {
 	refs := make([][]section, len(ins))
-	for i, in := range ins {
-		refs[i] = rn.reference(in)
+	if !cold {
+		for i, in := range ins {
+			refs[i] = rn.reference(in)
+		}
 	}
 	type res struct {
 		idx  int
@@ -773,7 +777,7 @@ func (rn *runner) concurrentLib(ins []input, g, reps int) bool {
 			for rep := 0; rep < reps; rep++ {
 				for j := w; j < len(ins); j += g {
 					s := process(ins[j])
-					if digest(s) != digest(refs[j]) {
+					if cold || digest(s) != digest(refs[j]) {
 						results[w] = append(results[w], res{j, s})
 					}
 				}
@@ -782,9 +786,17 @@ func (rn *runner) concurrentLib(ins []input, g, reps int) bool {
 	}
 	close(start)
 	wg.Wait()
+	if cold {
+		for i, in := range ins {
+			refs[i] = rn.reference(in)
+		}
+	}
 	ok := true
 	for w := range results {
 		for _, r := range results[w] {
+			if digest(r.secs) == digest(refs[r.idx]) {
+				continue
+			}
 			ok = false
 			op, x, y := firstDiff(refs[r.idx], r.secs)
 			rn.fail("lib:"+op+":concurrent-differs-from-sequential", "an operation on an independent input gave a different result when other goroutines were working",
@@ -880,7 +892,17 @@ func oracle(args []string) {
 		fmt.Fprintf(os.Stderr, "c19: only %d fixtures under %s/test\n", len(names), repoDir())
 		os.Exit(3)
 	}
-	// committed cases first
+	// cold start: the very first use of the library in this process is concurrent
+	{
+		r0 := rng.FromEnv(*salt + 7)
+		ins := pickInputs(r0, names, 24)
+		rn.concurrentLib(ins, 12, 1, true)
+		if !*noHTTP {
+			rn.concurrentHTTP(ins[:12], 12)
+		}
+		rn.dist["cold-start-round"] = 1
+	}
+	// committed cases
 	if *corpus != "" {
 		ms, _ := filepath.Glob(filepath.Join(*corpus, "*.json"))
 		sort.Strings(ms)
@@ -907,7 +929,7 @@ func oracle(args []string) {
 		if m < 16 {
 			reps = r.Range(1, 4)
 		}
-		rn.concurrentLib(ins, g, reps)
+		rn.concurrentLib(ins, g, reps, false)
 		rn.dist[fmt.Sprintf("goroutines-%s", bucket(g))]++
 		rn.dist[fmt.Sprintf("inputs-%s", bucket(m))]++
 		if !*noHTTP && rounds%2 == 0 {
@@ -1030,7 +1052,7 @@ func (rn *runner) runCase(c failCase, attempts int) bool {
 				if reps < 1 {
 					reps = 1
 				}
-				rn.concurrentLib(c.Inputs, g, reps)
+				rn.concurrentLib(c.Inputs, g, reps, false)
 			}
 		default: // alias, seq: deterministic single-goroutine checks
 			delete(rn.seq, ikey(c.Victim))
